@@ -430,6 +430,13 @@ class FuncView(object):
             def visit_Call(s, n):
                 orig = n
                 n = s.generic_visit(n)
+                # CONST_TABLE.get(key[, default]) over a module-level dict of constants that is never written: the
+                # conditional chain it stands for
+                if isinstance(n.func, ast.Attribute) and n.func.attr == 'get' and isinstance(n.func.value, ast.Name) \
+                        and 1 <= len(n.args) <= 2 and not n.keywords and not view.reaching(n.func.value.id, stmt):
+                    d = s._const_dict(n.func.value.id)
+                    if d is not None:
+                        return s._lookup_chain(d, n.args[0], n.args[1] if len(n.args) == 2 else ast.Constant(None))
                 if depth > 0 and inline:
                     r = inline_simple_call(view, orig, n)
                     if r is not None:
@@ -441,6 +448,43 @@ class FuncView(object):
                 if isinstance(n.value, ast.Tuple) and isinstance(n.slice, ast.Constant) and isinstance(n.slice.value, int) \
                         and 0 <= n.slice.value < len(n.value.elts):
                     return n.value.elts[n.slice.value]
+                return n
+
+            def _const_dict(s, name):
+                m = view.f.module
+                d = m.globals.get(name)
+                if isinstance(d, ast.Dict) and d.keys and all(isinstance(k, ast.Constant) for k in d.keys) \
+                        and all(isinstance(v, ast.Constant) for v in d.values) and len(d.keys) <= 8:
+                    # never written anywhere in the module
+                    for x in ast.walk(m.tree):
+                        if isinstance(x, ast.Subscript) and isinstance(x.ctx, (ast.Store, ast.Del)) and isinstance(x.value, ast.Name) and x.value.id == name:
+                            return None
+                        if isinstance(x, ast.Call) and isinstance(x.func, ast.Attribute) and isinstance(x.func.value, ast.Name) \
+                                and x.func.value.id == name and x.func.attr in ('update', 'pop', 'clear', 'setdefault', 'popitem'):
+                            return None
+                    return d
+                return None
+
+            def _lookup_chain(s, d, key, default):
+                out = default
+                for k, v in reversed(list(zip(d.keys, d.values))):
+                    out = ast.IfExp(test=ast.Compare(left=key, ops=[ast.Eq()], comparators=[k]), body=v, orelse=out)
+                return out
+
+            def visit_Attribute(s, n):
+                n = s.generic_visit(n)
+                # <namedtuple constructor call>.field  ->  the argument bound to that field
+                v = n.value
+                if isinstance(v, ast.Call) and isinstance(v.func, ast.Name) and isinstance(n.ctx, ast.Load):
+                    repo = getattr(view.f.module, 'repo', None)
+                    fields = repo.namedtuple_fields(view.f.module, v.func.id, view.f) if repo is not None else None
+                    if fields and n.attr in fields and not any(isinstance(a, ast.Starred) for a in v.args):
+                        i = fields.index(n.attr)
+                        if i < len(v.args):
+                            return v.args[i]
+                        for k in v.keywords:
+                            if k.arg == n.attr:
+                                return k.value
                 return n
         return T().visit(copy.deepcopy(expr))
 
